@@ -10,7 +10,10 @@
                   harness replaces crypto/rand.Reader by such a tape.
    panic        = None.
    The code reads time.Now() once in Current() and once more in generateNext();
-   the model takes both readings (t1 <= t2) as inputs.  Calls are atomic: they
+   the model takes both readings (t1 <= t2) as inputs.  (Between the two readings
+   the code only looks up a map entry and compares times - nothing that can block -,
+   so under testing/synctest's virtual clock t1 = t2 in every observable execution;
+   the theorems cover t1 < t2, the correspondence run cannot produce it.)  Calls are atomic: they
    run under Provider.mu (see lock_* at the end for the interleaving model). *)
 From ST Require Import Base.Ints.
 Open Scope Z_scope.
@@ -205,29 +208,63 @@ Fixpoint C12_ok (l : list obs) : bool :=
   | b :: r => obs_ok b && forallb (pair_ok b) r && C12_ok r
   end.
 
+(* The same clauses judged in one pass, for histories too long for the pairwise
+   oracle (tens of thousands of rotations): every call on its own, and every key
+   against the key the previous Current handed out (ids never go down; same id =
+   same key; later generation = larger id).  C12_long_unique (Props) shows that this
+   chain condition decides "identifiers never repeat" for ALL Current results of the
+   history; the lifetime clause is not judged here (the model comparison covers it). *)
+Fixpoint long_ok (prev : option key) (l : list obs) : bool :=
+  match l with
+  | [] => true
+  | b :: r =>
+      obs_ok b &&
+      (match prev, obs_key b with Some p, Some k => keys_compat p k | _, _ => true end) &&
+      (match prev, b with Some p, BCur _ _ k => k_id p <=? k_id k | _, _ => true end) &&
+      long_ok (match b with BCur _ _ k => Some k | _ => prev end) r
+  end.
+Definition C12_long_ok (l : list obs) : bool := long_ok None l.
+
+(* the keys handed out by Current, in call order *)
+Fixpoint curs (l : list obs) : list key :=
+  match l with
+  | [] => []
+  | BCur _ _ k :: r => k :: curs r
+  | _ :: r => curs r
+  end.
+
 (* ---- concurrent histories: calls of several goroutines at the same virtual
-   instant are ordered by the lock only.  A group is the set of calls made at
-   one instant t (each goroutine at most one); whatever order the lock chose:
-   every Current returns the key of the state after one Current at t, every Get
-   returns what it returns before or after that Current. ---- *)
+   instant are ordered by the lock only.  A group is the list of calls made at
+   one instant t, each goroutine any number of them (in its program order);
+   whatever order the lock chose: every Current returns the key of the state
+   after one Current at t, every Get returns what it returns before or after
+   that Current, consistently with the goroutine's own earlier calls. ---- *)
 Definition group_has_cur (ops : list op) : bool :=
   existsb (fun o => match o with OCur _ _ _ => true | _ => false end) ops.
 
 Definition opt_key_eqb (a b : option key) : bool :=
   match a, b with Some x, Some y => key_eqb x y | None, None => true | _, _ => false end.
 
-Definition group_obs_ok (s s' : state) (kc : key) (o : op) (b : obs) : bool :=
-  match o, b with
-  | OCur g t1 t2, BCur g' t k => (g =? g') && (t =? t2) && key_eqb k kc
-  | OGet g id t, BGet g' t' id' r =>
-      (g =? g') && (t =? t') && (id =? id') && (opt_key_eqb r (get s id t) || opt_key_eqb r (get s' id t))
-  | _, _ => false
-  end.
-
-Fixpoint forallb2 {A B} (f : A -> B -> bool) (a : list A) (b : list B) : bool :=
-  match a, b with
+(* The calls of one instant in the order they completed; the calls of one goroutine
+   appear in program order.  Until the first Current of the instant has run, a Get sees
+   the state s; afterwards every call sees s' (a further Current changes nothing).  Which
+   of a goroutine's calls came before that first Current is not observable except
+   through the results, so: a goroutine is "in" once it made a Current itself or a Get
+   of it could only be explained by s'; from then on all its calls must see s'. *)
+Fixpoint group_walk (s s' : state) (kc : key) (inb : list Z) (ops : list op) (bs : list obs) : bool :=
+  match ops, bs with
   | [], [] => true
-  | x :: a', y :: b' => f x y && forallb2 f a' b'
+  | o :: ops', b :: bs' =>
+      match o, b with
+      | OCur g t1 t2, BCur g' t k =>
+          (g =? g') && (t =? t2) && key_eqb k kc && group_walk s s' kc (g :: inb) ops' bs'
+      | OGet g id t, BGet g' t' id' r =>
+          (g =? g') && (t =? t') && (id =? id') &&
+          (if existsb (Z.eqb g) inb then opt_key_eqb r (get s' id t) && group_walk s s' kc inb ops' bs'
+           else if opt_key_eqb r (get s id t) then group_walk s s' kc inb ops' bs'
+           else opt_key_eqb r (get s' id t) && group_walk s s' kc (g :: inb) ops' bs')
+      | _, _ => false
+      end
   | _, _ => false
   end.
 
@@ -236,9 +273,9 @@ Definition group_step (s : state) (t : Z) (ops : list op) (bs : list obs) : opti
   if group_has_cur ops then
     match current s t t with
     | None => None
-    | Some (kc, s') => if forallb2 (group_obs_ok s s' kc) ops bs then Some s' else None
+    | Some (kc, s') => if group_walk s s' kc [] ops bs then Some s' else None
     end
-  else if forallb2 (group_obs_ok s s zero_key) ops bs then Some s else None.
+  else if group_walk s s zero_key [] ops bs then Some s else None.
 
 Fixpoint groups_ok (s : state) (last : Z) (gs : list (Z * list op * list obs)) : bool :=
   match gs with
@@ -251,15 +288,7 @@ Fixpoint groups_ok (s : state) (last : Z) (gs : list (Z * list op * list obs)) :
       end
   end.
 
-(* at most one call per goroutine in a group *)
 Definition obs_g (b : obs) : Z := match b with BCur g _ _ => g | BGet g _ _ _ => g end.
-Fixpoint distinct_zs (l : list Z) : bool :=
-  match l with
-  | [] => true
-  | x :: r => negb (existsb (Z.eqb x) r) && distinct_zs r
-  end.
-Definition groups_wf (gs : list (Z * list op * list obs)) : bool :=
-  forallb (fun g => distinct_zs (map obs_g (snd g))) gs.
 Definition groups_obs (gs : list (Z * list op * list obs)) : list obs := flat_map (fun g => snd g) gs.
 
 (* ---- the lock: a small interleaving semantics of goroutines calling
